@@ -4,6 +4,8 @@ Runs the executable model (`JaxVerif/Model/*`) only; imports no Mathlib so that 
 -/
 import Lean.Data.Json
 import Driver.Codec
+import JaxVerif.Model.Config
+import JaxVerif.Model.Gensym
 
 open Lean JV
 
@@ -99,6 +101,22 @@ def dispatch1 (j : Json) : Except String Json := do
       match bcast a b with
       | none => return Json.null
       | some r => return jarr (r.map jnat)
+  | "cfg" => do
+      let item ← getStr j "item"
+      let v ← j.getObjVal? "val"
+      let cv : CfgVal := match v with
+        | .bool b => .bool b
+        | .str s => .str s.toList
+        | _ => .other
+      let c0 : Cfg := { disable := getBoolD j "disable0" false, removeTypecheckerStack := getBoolD j "remove0" false }
+      match cfgUpdate item.toList cv c0 with
+      | none => return jstr "VAL"
+      | some c => return Json.mkObj [("disable", Json.bool c.disable), ("remove", Json.bool c.removeTypecheckerStack)]
+  | "gensym" => do
+      let fn ← getStr j "fn"
+      let ps ← getStrList j "params"
+      let (names, scope) := generatedNames fn ps (getBoolD j "output" false)
+      return Json.mkObj [("params", jarr (names.map jstr)), ("scope", jarr (scope.map jstr))]
   | "ping" => return jstr "pong"
   | _ => throw s!"unknown cmd {cmd}"
 
